@@ -1,3 +1,7 @@
 #!/bin/sh
-# placeholder: replaced by the real setup once the harness exists
-exit 0
+# Build the simulation harness from files on disk only (offline), against /repo's working tree.
+set -e
+cd "$(dirname "$0")"
+export CARGO_NET_OFFLINE=true
+./build.sh
+.build/target/release/rce_sim selftest
